@@ -4,33 +4,127 @@ package rotation
 
 import (
 	"context"
+	"crypto/ed25519"
 	"crypto/x509"
 	"time"
 
 	"github.com/hashicorp/nodeenrollment"
+	"github.com/hashicorp/nodeenrollment/registration"
+	nodetls "github.com/hashicorp/nodeenrollment/tls"
 	"github.com/hashicorp/nodeenrollment/types"
 	"github.com/hashicorp/nodeenrollment/zzverif/vf"
 	"github.com/hashicorp/nodeenrollment/zzverif/vfs"
+	"google.golang.org/protobuf/proto"
 )
 
-func init() { VfHarnesses["VerifC04Certificates"] = VerifC04Certificates }
+func init() {
+	VfHarnesses["VerifC04OperatorFlow"] = func() { verifC04Flow(0) }
+	VfHarnesses["VerifC04TokenFlow"] = func() { verifC04Flow(1) }
+	VfHarnesses["VerifC04WrapperFlow"] = func() { verifC04Flow(2) }
+	VfHarnesses["VerifC04RewrappedFlow"] = func() { verifC04Flow(3) }
+	VfHarnesses["VerifC04NodeRefuses"] = VerifC04NodeRefuses
+	VfHarnesses["VerifC04ShortRandom"] = VerifC04ShortRandom
+}
 
-// C04 (certificate half): roots minted by the real RotateRootCertificates, node enrolled by the library's own
-// honest flow; every issued certificate is a non-CA client-auth leaf for the node's key, named by its key id,
-// valid exactly as long as its issuing root; one chain per server root; the stored record equals the response.
-func VerifC04Certificates() {
+func VerifC04OperatorFlow()  { verifC04Flow(0) }
+func VerifC04TokenFlow()     { verifC04Flow(1) }
+func VerifC04WrapperFlow()   { verifC04Flow(2) }
+func VerifC04RewrappedFlow() { verifC04Flow(3) }
+
+// C04 (honest flows): roots minted by the real RotateRootCertificates, then one honest node enrolled by the
+// library's own code through the given flow, with or without a storage wrapper on either side and with or without
+// application state. Every honest step succeeds; the response is signed by the current root, carries one chain
+// per root, every certificate is a non-CA client-auth leaf for the node's key named by its key ID and valid
+// exactly as long as its issuing root, the stored record equals what built the response, and the stored node
+// credentials yield client TLS configurations.
+func verifC04Flow(flow int) {
 	ctx := context.Background()
-	st := &vfs.Storage{}
+	st, nodeSt := &vfs.Storage{}, &vfs.Storage{}
 	t0 := vf.Now()
 	vfDeadline = t0.Add(time.Second)
-	roots, err := RotateRootCertificates(ctx, st)
+	vf.ShortScenario(t0, time.Second)
+	var sopts, nopts []nodeenrollment.Option
+	if vf.Bool("server-storage-wrapper") {
+		sopts = append(sopts, nodeenrollment.WithStorageWrapper(vfC04Wrapper("server-storage", 5)))
+	}
+	if vf.Bool("node-storage-wrapper") {
+		nopts = append(nopts, nodeenrollment.WithStorageWrapper(vfC04Wrapper("node-storage", 6)))
+	}
+	withState := vf.Bool("application-state")
+	roots, err := RotateRootCertificates(ctx, st, sopts...)
 	vfOK("rotate-roots", err)
-	creds := vfEnroll(ctx, st, nil)
+
+	var creds *types.NodeCredentials
+	var req *types.FetchNodeCredentialsRequest
+	var resp *types.FetchNodeCredentialsResponse
+	fopts := append([]nodeenrollment.Option{}, sopts...)
+	hopts := append([]nodeenrollment.Option{}, nopts...)
+	switch flow {
+	case 0: // operator authorizes the node's request, then the node fetches
+		creds, err = types.NewNodeCredentials(ctx, nodeSt, nopts...)
+		vfOK("new-node-credentials", err)
+		req, err = creds.CreateFetchNodeCredentialsRequest(ctx)
+		vfOK("create-fetch-request", err)
+		aopts := append([]nodeenrollment.Option{}, sopts...)
+		if withState {
+			aopts = append(aopts, nodeenrollment.WithState(vfs.State("app-state")))
+		}
+		_, err = registration.AuthorizeNode(ctx, st, req, aopts...)
+		vfOK("authorize", err)
+	case 1: // activation token
+		topts := append([]nodeenrollment.Option{}, sopts...)
+		if withState {
+			topts = append(topts, nodeenrollment.WithState(vfs.State("app-state")))
+		}
+		_, token, terr := registration.CreateServerLedActivationToken(ctx, st, &types.ServerLedRegistrationRequest{}, topts...)
+		vfOK("create-token", terr)
+		creds, err = types.NewNodeCredentials(ctx, nodeSt, append(append([]nodeenrollment.Option{}, nopts...), nodeenrollment.WithActivationToken(token))...)
+		vfOK("new-node-credentials", err)
+		req, err = creds.CreateFetchNodeCredentialsRequest(ctx, nodeenrollment.WithActivationToken(token))
+		vfOK("create-fetch-request", err)
+		hopts = append(hopts, nodeenrollment.WithActivationToken(token))
+	default: // registration wrapper (2), or the same request re-sealed by an already registered node (3)
+		regWrapper := vfC04Wrapper("registration", 7)
+		creds, err = types.NewNodeCredentials(ctx, nodeSt, nopts...)
+		vfOK("new-node-credentials", err)
+		req, err = creds.CreateFetchNodeCredentialsRequest(ctx, nodeenrollment.WithRegistrationWrapper(regWrapper))
+		vfOK("create-fetch-request", err)
+		if withState {
+			fopts = append(fopts, nodeenrollment.WithState(vfs.State("app-state")))
+		}
+		if flow == 2 {
+			fopts = append(fopts, nodeenrollment.WithRegistrationWrapper(regWrapper))
+		} else {
+			// the intermediary: an honestly enrolled node that can open the wrapped info and re-seals it for the server
+			mid := vfEnroll(ctx, st, nil, sopts...)
+			info := new(types.FetchNodeCredentialsInfo)
+			vfOK("decode-bundle", proto.Unmarshal(req.Bundle, info))
+			flowInfo, derr := registration.DecryptWrappedRegistrationInfo(ctx, info, nodeenrollment.WithRegistrationWrapper(regWrapper))
+			vfOK("intermediary-opens-wrapped-info", derr)
+			req.RewrappedWrappingRegistrationFlowInfo, err = nodeenrollment.EncryptMessage(ctx, flowInfo, mid)
+			vfOK("intermediary-reseals", err)
+			req.RewrappingKeyId, err = nodeenrollment.KeyIdFromPkix(mid.CertificatePublicKeyPkix)
+			vfOK("intermediary-key-id", err)
+		}
+	}
+	resp, err = registration.FetchNodeCredentials(ctx, st, req, fopts...)
+	vfOK("fetch", err)
+	vf.Assert("response-carries-credentials", len(resp.EncryptedNodeCredentials) > 0)
+	// signed by the server's current root
+	curPub, perr := x509.ParsePKIXPublicKey(roots.Current.PublicKeyPkix)
+	vfOK("parse-current-root-key", perr)
+	vf.Assert("response-signed-by-the-current-root", ed25519.Verify(curPub.(ed25519.PublicKey), resp.EncryptedNodeCredentials, resp.EncryptedNodeCredentialsSignature))
+	_, err = creds.HandleFetchNodeCredentialsResponse(ctx, nodeSt, resp, hopts...)
+	vfOK("handle-response", err)
+
 	vf.Assert("one-chain-per-root", len(creds.CertificateBundles) == 2)
 	keyId, _ := nodeenrollment.KeyIdFromPkix(creds.CertificatePublicKeyPkix)
-	rec, err := types.LoadNodeInformation(ctx, st, keyId)
+	rec, err := types.LoadNodeInformation(ctx, st, keyId, sopts...)
 	vfOK("load-record", err)
 	vf.Assert("record-has-the-same-chains", len(rec.CertificateBundles) == 2)
+	if withState {
+		vf.Assert("record-carries-the-application-state", vfs.StateValue(rec.State) == "app-state")
+	}
 	for i, root := range []*types.RootCertificate{roots.Current, roots.Next} {
 		b := creds.CertificateBundles[i]
 		vf.Assert("record-equals-response", vf.And(vf.EqBytes(b.CertificateDer, rec.CertificateBundles[i].CertificateDer),
@@ -38,13 +132,107 @@ func VerifC04Certificates() {
 		vf.Assert("ca-is-the-servers-root", vf.EqBytes(b.CaCertificateDer, root.CertificateDer))
 		leaf, err := x509.ParseCertificate(b.CertificateDer)
 		vfOK("parse-leaf", err)
+		ca, err := x509.ParseCertificate(b.CaCertificateDer)
+		vfOK("parse-ca", err)
 		vf.Assert("leaf-is-not-a-ca", !leaf.IsCA)
 		vf.Assert("leaf-is-client-auth-only", len(leaf.ExtKeyUsage) == 1 && leaf.ExtKeyUsage[0] == x509.ExtKeyUsageClientAuth)
-		vf.Assert("leaf-names-the-node-key", vf.And(vf.EqBytes(leaf.SubjectKeyId, creds.CertificatePublicKeyPkix), leaf.Subject.CommonName == keyId))
-		vf.Assert("leaf-lives-exactly-as-long-as-its-root", vf.And(vf.TimeEq(leaf.NotBefore, root.NotBefore.AsTime()), vf.TimeEq(leaf.NotAfter, root.NotAfter.AsTime())))
+		vf.Assert("leaf-names-the-node-key", vf.And(vf.EqBytes(leaf.SubjectKeyId, creds.CertificatePublicKeyPkix), vf.And(leaf.Subject.CommonName == keyId, len(leaf.DNSNames) >= 1 && leaf.DNSNames[0] == keyId)))
+		vf.Assert("leaf-lives-exactly-as-long-as-its-root", vf.And(vf.TimeEq(leaf.NotBefore, ca.NotBefore), vf.TimeEq(leaf.NotAfter, ca.NotAfter)))
 		pk, err := x509.MarshalPKIXPublicKey(leaf.PublicKey)
 		vfOK("marshal-leaf-key", err)
 		vf.Assert("leaf-certifies-the-node-key", vf.EqBytes(pk, creds.CertificatePublicKeyPkix))
 	}
+	// the credentials the node stored are usable
+	loaded, err := types.LoadNodeCredentials(ctx, nodeSt, nodeenrollment.CurrentId, nopts...)
+	vfOK("load-node-credentials", err)
+	cfgs, err := nodetls.ClientConfigs(ctx, loaded)
+	vfOK("client-configs", err)
+	vf.Assert("at-least-one-working-client-config", len(cfgs) >= 1)
+	for _, c := range cfgs {
+		vf.Assert("client-config-has-a-certificate-callback", c.GetClientCertificate != nil)
+	}
 	vf.Reach("end")
+}
+
+func vfC04Wrapper(id string, k int) *vfWrapperT { return newVfWrapper(id, k) }
+
+// C04 (node side): the node accepts a response only if it decrypts under the key pair of its own request and
+// echoes exactly its nonce - any other nonce, of the same or of a different length, is refused.
+func VerifC04NodeRefuses() {
+	ctx := context.Background()
+	nodeSt := &vfs.Storage{}
+	nonce := vf.Bytes("node-nonce", 32)
+	vf.Assume(len(nonce) == 32)
+	node := &types.NodeCredentials{Id: string(nodeenrollment.CurrentId), CertificatePublicKeyPkix: vf.Pkix(2), CertificatePrivateKeyPkcs8: vf.Pkcs8(2), CertificatePrivateKeyType: types.KEYTYPE_ED25519,
+		EncryptionPrivateKeyBytes: vf.X25519Priv(0), EncryptionPrivateKeyType: types.KEYTYPE_X25519, RegistrationNonce: nonce}
+	// the server side of the key agreement the response was built with: for this node's key pair, or for another
+	serverView := vf.Int("server-encrypted-to-node-key", 0, 1)
+	certView := vf.Int("server-used-cert-key", 2, 3)
+	rec := &types.NodeInformation{CertificatePublicKeyPkix: vf.Pkix(certView), EncryptionPublicKeyBytes: vf.X25519Pub(serverView), EncryptionPublicKeyType: types.KEYTYPE_X25519,
+		ServerEncryptionPrivateKeyBytes: vf.X25519Priv(9), ServerEncryptionPrivateKeyType: types.KEYTYPE_X25519}
+	echoed := nonce
+	if !vf.Bool("echoes-the-nodes-nonce") {
+		echoed = vf.Bytes("echoed-nonce", 40)
+		vf.Assume(vf.Not(vf.EqBytes(echoed, nonce)))
+	}
+	inner := &types.NodeCredentials{ServerEncryptionPublicKeyBytes: vf.X25519Pub(9), ServerEncryptionPublicKeyType: types.KEYTYPE_X25519, RegistrationNonce: echoed,
+		CertificateBundles: []*types.CertificateBundle{{CertificateDer: []byte("leaf-1")}, {CertificateDer: []byte("leaf-2")}}}
+	enc, err := nodeenrollment.EncryptMessage(ctx, inner, rec)
+	if err != nil {
+		panic(err)
+	}
+	resp := &types.FetchNodeCredentialsResponse{EncryptedNodeCredentials: enc, ServerEncryptionPublicKeyBytes: vf.X25519Pub(9), ServerEncryptionPublicKeyType: types.KEYTYPE_X25519}
+	out, err := node.HandleFetchNodeCredentialsResponse(ctx, nodeSt, resp)
+	legit := vf.And(vf.And(serverView == 0, certView == 2), vf.EqBytes(echoed, nonce))
+	if err == nil {
+		vf.Reach("accepted")
+		vf.Assert("accepted-only-if-for-this-key-and-nonce", legit)
+		vf.Assert("bundles-taken-from-the-response", len(out.CertificateBundles) == 2)
+		vf.Assert("credentials-stored", nodeSt.Count(vfs.KindCreds) == 1)
+	} else {
+		vf.Reach("refused")
+		vf.Assert("own-response-is-accepted", vf.Not(legit))
+		vf.Assert("refused-response-stores-nothing", nodeSt.Count(vfs.KindCreds) == 0)
+	}
+}
+
+// vfShortReader hands out at most n random bytes per call and reports how many it delivered.
+type vfShortReader struct{ n int }
+
+func (r *vfShortReader) Read(p []byte) (int, error) {
+	n := r.n
+	if n > len(p) {
+		n = len(p)
+	}
+	vf.FillRandom(p, n)
+	return n, nil
+}
+
+// C04 (key generation): the server's half of the encryption key agreement is made from a full read of the random
+// source; a source that delivers fewer bytes (which io.Reader allows) must make authorization fail rather than
+// yield a predictable key that third parties could use to open the response.
+func VerifC04ShortRandom() {
+	ctx := context.Background()
+	st := &vfs.Storage{}
+	t0 := vf.Now()
+	vfs.StoreRoots(ctx, st, t0)
+	creds, err := types.NewNodeCredentials(ctx, &vfs.Storage{})
+	if err != nil {
+		panic(err)
+	}
+	req, err := creds.CreateFetchNodeCredentialsRequest(ctx)
+	if err != nil {
+		panic(err)
+	}
+	rd := &vfShortReader{n: vf.Int("bytes-per-read", 0, 64)}
+	_, err = registration.AuthorizeNode(ctx, st, req, nodeenrollment.WithRandomReader(rd))
+	vf.Assume(vf.TimeLE(vf.Now(), t0.Add(time.Second)))
+	if err == nil {
+		vf.Reach("authorized")
+		vf.Assert("authorized-only-with-a-full-random-read", rd.n >= 32)
+	} else {
+		vf.Reach("refused")
+		vf.Assert("full-reads-authorize", rd.n < 32)
+		vf.Assert("refusal-stores-nothing", st.Count(vfs.KindNode) == 0)
+	}
 }
